@@ -11,6 +11,7 @@ import (
 	"path/filepath"
 	"sort"
 	"strings"
+	"time"
 
 	"verifharness/mc"
 	"verifharness/world"
@@ -304,6 +305,8 @@ func runC17Config(x *mc.X) {
 	if source == "dsn" {
 		encrypt = mc.Pick(x, "dsn.encrypt", []string{"on", "aesgcm", "", "off"})
 	}
+	// another option / parameter AFTER the encryption one (options are applied in order; an error must not get lost on the way)
+	mtimeAfter := x.Choose("update_mtime-after-encryption", 2) == 1
 	ki := x.Choose("key", len(specs)+1) // last = parameter absent (dsn only)
 	envi := x.Choose("env.FSCACHE_ENCRYPT_KEY", len(specs)+1)
 	if source == "option" && ki == len(specs) {
@@ -323,7 +326,11 @@ func runC17Config(x *mc.X) {
 	var eff *c17KeySpec
 	if source == "option" {
 		eff = &specs[ki]
-		conn, err = fscache.Open("app", fscache.WithBaseDir(dir), fscache.WithEncryption(specs[ki].key))
+		opts := []fscache.Option{fscache.WithBaseDir(dir), fscache.WithEncryption(specs[ki].key)}
+		if mtimeAfter {
+			opts = append(opts, fscache.WithUpdateMTime(true), fscache.WithTimeout(time.Minute))
+		}
+		conn, err = fscache.Open("app", opts...)
 	} else {
 		asks = encrypt == "on" || encrypt == "aesgcm"
 		q := url.Values{"appname": {"app"}}
@@ -339,10 +346,14 @@ func runC17Config(x *mc.X) {
 		if eff == nil && envi < len(specs) && specs[envi].key != "" {
 			eff = &specs[envi]
 		}
+		if mtimeAfter {
+			q.Set("update_mtime", "on")
+			q.Set("timeout", "1m")
+		}
 		conn, err = store.Open("fscache://" + dir + "?" + q.Encode())
 	}
 	usable := eff != nil && eff.usable
-	desc := fmt.Sprintf("source=%s encrypt=%q key=%s env=%s", source, encrypt, specName(specs, ki), specName(specs, envi))
+	desc := fmt.Sprintf("source=%s encrypt=%q key=%s env=%s%s", source, encrypt, specName(specs, ki), specName(specs, envi), ifs(mtimeAfter, " +update_mtime,timeout"))
 	x.Nontrivial(fmt.Sprintf("%s/asks=%v/usable=%v", source, asks, usable))
 	x.State(desc, fmt.Sprint(err == nil))
 	x.Evals(1)
